@@ -85,7 +85,8 @@ def validate (l : Lim) (k : Key) (v : Val) : Option ApiErr :=
 def batchBad (l : Lim) (kvs : List (Key × Val)) : Bool :=
   kvs.any (fun x => x.1.isEmpty || decide (x.1.length > l.maxKey) || decide (x.2.length > l.maxVal))
 
-/-- mirrors `updateCache`: at capacity `_cache.erase(_cache.begin())`, then `_cache[key] = {value, expiry}` -/
+/-- mirrors `updateCache`: `maxCacheSize == 0` disables the cache; at capacity `_cache.erase(_cache.begin())`, then
+`_cache[key] = {value, expiry}` -/
 def updateCache (cfg : Cfg) (m : Mem) (k : Key) (v : Val) (e : Option Int) : Mem :=
   let r : Map CacheEnt × List Nat :=
     if m.cache.length ≥ cfg.maxCache then
@@ -93,7 +94,8 @@ def updateCache (cfg : Cfg) (m : Mem) (k : Key) (v : Val) (e : Option Int) : Mem
       | c :: cs => (m.cache.eraseIdx (c % m.cache.length), cs)
       | [] => (m.cache.eraseIdx 0, [])
     else (m.cache, m.choices)
-  { m with cache := Map.put r.1 k ⟨v, e⟩, choices := r.2 }
+  { m with cache := if cfg.maxCache = 0 then m.cache else Map.put r.1 k ⟨v, e⟩
+           choices := if cfg.maxCache = 0 then m.choices else r.2 }
 
 /-- mirrors `invalidateCache` -/
 def invalidateCache (m : Mem) (k : Key) : Mem := { m with cache := m.cache.erase k }
@@ -140,13 +142,17 @@ def opSet (cfg : Cfg) (w : W) (k : Key) (v : Val) : W × Out :=
     let m1 := updateCache cfg { m with expiry := m.expiry.erase k, kv := m.kv.put k v } k v none
     (maybeCompact cfg (writeLog cfg { w with mem := m1 } (.set k v)), .ok)
 
+/-- mirrors `deadlineAfter(ttl)`: `now + ttl`, saturated at the last deadline that can be represented and persisted
+(`room = (last - now)` in whole seconds; `ttl > room ? last : now + ttl` — which is the minimum of the two) -/
+def deadlineAfter (l : Lim) (now ttl : Int) : Int := min (now + ttl * 1000) l.maxPlausible
+
 /-- mirrors `set(key, value, ttl)` (`ttl` in seconds) -/
 def opSetTtl (cfg : Cfg) (w : W) (k : Key) (v : Val) (ttl : Int) : W × Out :=
   if ttl ≤ 0 then (w, .err .badTtl) else
   match validate cfg.lim k v with
   | some e => (w, .err e)
   | none =>
-    let e := w.now + ttl * 1000
+    let e := deadlineAfter cfg.lim w.now ttl
     let (id, m) := armTimer w.mem
     let m1 := updateCache cfg { m with kv := m.kv.put k v, expiry := m.expiry.put k ⟨e, id, false⟩ } k v (some e)
     (maybeCompact cfg (writeLog cfg { w with mem := m1 } (.setE k v e)), .ok)
@@ -196,7 +202,7 @@ def opSetBatchTtl (cfg : Cfg) (w : W) (kvs : List (Key × Val)) (ttl : Int) : W 
   if ttl ≤ 0 then (w, .err .badTtl) else
   if kvs.isEmpty then (w, .ok) else
   if batchBad cfg.lim kvs then (w, .err .badBatch) else
-  let e := w.now + ttl * 1000
+  let e := deadlineAfter cfg.lim w.now ttl
   let m1 := kvs.foldl (fun (m : Mem) x =>
       let (id, m) := armTimer m
       updateCache cfg { m with kv := m.kv.put x.1 x.2, expiry := m.expiry.put x.1 ⟨e, id, false⟩ } x.1 x.2 (some e)) w.mem
